@@ -10,8 +10,12 @@ run() { # <label> <patch> <prop> [tier]
   local cls=$(echo "$out" | grep -E '^  rule=' | sed 's/ occurrences.*//' | head -3 | tr '\n' ';')
   echo "$1 | $3 | exit=$rc | violations=$n | $cls"
 }
+# optional arguments: only the seeds / unfix-<commit> entries whose label matches one of the given shell patterns
+want() { [ $# -eq 1 ] && [ -z "${FILTERS:-}" ] && return 0; for f in $FILTERS; do case "$1" in $f) return 0;; esac; done; return 1; }
+FILTERS="$*"
 for d in seeded/C*-m*; do
   id=$(basename $d); prop=${id%%-*}
+  want $id || continue
   p=$d/patch.diff; [ -f $d/patch.rebased.diff ] && p=$d/patch.rebased.diff
   extra=$(python3 -c "import json,os;m=json.load(open('$d/meta.json')) if os.path.exists('$d/meta.json') else {};print(' '.join(m.get('also_run',[])))" 2>/dev/null)
   run $id $p $prop
@@ -25,5 +29,6 @@ for f in json.load(open('known_findings.json')):
         seen.add((f['commit'],f['property'])); print(f['commit'],f['property'])
 PY
 while read c p; do
+  want unfix-$c || continue
   [ -f seeded/unfix/$c.diff ] && run unfix-$c seeded/unfix/$c.diff $p
 done < /tmp/unfix.list
